@@ -73,8 +73,8 @@ def run(tier, replay=None):
     wd = vlib.workdir("chk_C01")
     known = vlib.load_known()
     devs = ost_check.open_devs(known)
-    ost_check.ensure_dev_defs([devs])
-    mst_check.ensure_dev_defs(mst_check.open_devs(known))
+    ost_check.ensure_dev_defs([devs] + [[d] for d in devs])
+    mst_check.ensure_dev_defs(mst_check.open_devs(known), mst_check.sensitivity("C15", "quick", None)[1])
     vlib.build_harness()
     sd = vlib.seed()
     rnd = random.Random(sd)
